@@ -764,7 +764,18 @@ impl<'a, 'b> TreeGen<'a, 'b> {
                 *assigns = row.assigns.clone();
             }
 
-            return DecisionTree::HoistedLeaf(row.then, row.assigns);
+            // The hoisted body takes its arguments by position: hand them over in the
+            // order of its parameters, whatever order this branch collected them in.
+            let mut row_assigns = row.assigns;
+
+            row_assigns.sort_by_key(|item| {
+                assigns
+                    .iter()
+                    .position(|param| param.assigned == item.assigned)
+                    .unwrap_or(usize::MAX)
+            });
+
+            return DecisionTree::HoistedLeaf(row.then, row_assigns);
         };
 
         let mut longest_elems_no_tail = None;
